@@ -437,6 +437,53 @@ def kfZero (fac : DecApi.Factory) (kept : List Message) : Bool := seqClass (fun 
 def kfArr (fac : DecApi.Factory) (kept : List Message) : Bool := seqClass kfArrV fac {} kept
 def kfFFFD (fac : DecApi.Factory) (kept : List Message) : Bool := seqClass (fun _ _ _ v => kfFFFDV v) fac {} kept
 
+/-! ### classes of DECODER OUTPUT on which encoding and decoding again does not return the very same messages -/
+
+/-- KF-C01-undersized: a field the factory knows as an ARRAY whose definition gives it fewer bytes than one element of its
+base type — the decoder assembles the bytes into ONE number and returns it as a scalar (`convertBytesToValue`) although
+`FieldBase.Array` is set; written again it occupies one full element and comes back as a one-element array -/
+def kfUndersizedF (d : DecApi.DField) : Bool := d.known && d.array && !isSlice d.value
+
+/-- a string array with fewer than two strings -/
+def shortStrs : Value → Bool
+  | .sliceString vs => decide (vs.length < 2)
+  | _ => false
+
+/-- KF-C01-strpieces: a string field WITHOUT profile entry (or a developer field) whose bytes hold two or more non-empty
+NUL-terminated segments — the decoder decides "array" by counting them (`strcount`) — of which fewer than two survive
+the UTF-8 cleaning of `UnmarshalValue`: it returns `[]string{"a"}` / `[]string{}`; written again there is one segment
+(or none) and the value comes back as the scalar `"a"` / `""` -/
+def kfPiecesF (d : DecApi.DField) : Bool := !d.known && shortStrs d.value
+def kfPiecesD (d : DecApi.DDev) : Bool := shortStrs d.value
+
+def kfUndersized (ms : List DecApi.Msg) : Bool := ms.any fun m => m.fields.any kfUndersizedF
+def kfPieces (ms : List DecApi.Msg) : Bool := ms.any fun m => m.fields.any kfPiecesF || m.devs.any kfPiecesD
+
+def f64Typed : Value → Bool
+  | .float64 _ | .sliceFloat64 _ => true
+  | _ => false
+
+/-- the condition under which `Validate` hands a developer field's value to `scaleoffset.DiscardValue` (validator.go:187-207) -/
+def restoreApplies (vo : Validator.Options) (fd : Validator.FieldDesc) : Bool :=
+  if fd.nativeMesgNum != mesgNumInvalid && fd.nativeFieldNum != uint8Invalid then
+    let e := vo.factory fd.nativeMesgNum fd.nativeFieldNum
+    e.nameKnown && (Validator.scaleNotOne e.scale || Validator.offsetNotZero e.offset)
+  else fd.scale != uint8Invalid && fd.offset != sint8Invalid
+
+/-- KF-C01-f64dev (root: KF-C10-2): a developer field the decoder returned as a float64 / []float64 (its field description
+says base type float64) whose description carries a scale and an offset (or names a native field with a scale / offset):
+`Validate` takes every float64-typed value for a SCALED value and "restores" it — `(v + offset) * scale` — although the
+decoder returned the raw value: what is written, and comes back, is another number (1.5 under scale 2 comes back as 3.0) -/
+def kfF64Dev (vo : Validator.Options) : Validator.State → List DecApi.Msg → Bool
+  | _, [] => false
+  | vst, m :: ms =>
+    let kept := (retained vo.omitInvalid vst [m]).headD { num := m.num, fields := [], devFields := [] }
+    let vst' := Validator.remember vst m.num kept.fields
+    (m.devs.any fun d => f64Typed d.value &&
+      (match Validator.lookupFd vst'.fds ⟨d.idx, d.num, d.value⟩ with
+       | some fd => restoreApplies vo fd
+       | none => false)) || kfF64Dev vo vst' ms
+
 /-! ### the typing assumptions of the theorems -/
 
 /-- the field was built from the decoder's factory: the factory knows it iff its name is known, and then base type,
